@@ -56,7 +56,7 @@ def gen(rng, i, ctx):
         bs = int(rng.integers(1, 5))
     else:
         ws = [int(rng.choice(pool + [int(rng.integers(1, 700))] * 6)) for _ in range(k)]
-    mode = str(rng.choice(['sparse', 'sparse', 'dense', 'tight', 'nologits']))
+    mode = str(rng.choice(['sparse', 'sparse', 'dense', 'tight', 'tight_sparse', 'nologits']))
     if cls == 'extreme_logits':
         mode, bs = 'sparse', int(rng.choice([1, 3, 8]))
     return {'cls': cls, 'widths': ws, 'batch_size': bs, 'mode': mode, 'pix_seed': int(rng.integers(0, 1 << 30)), 'perm_seed': int(rng.integers(0, 1 << 30))}
@@ -109,13 +109,17 @@ def check(case, mon, ctx):
     net = ctx.net_hot if hot else ctx.net
     lines = make_lines(case)
     k = len(lines)
-    kw = dict(sparse_logits=(mode == 'sparse'), tight_crop_logits=(mode == 'tight'), no_logits=(mode == 'nologits'))
+    kw = dict(sparse_logits=(mode in ('sparse', 'tight_sparse')), tight_crop_logits=(mode in ('tight', 'tight_sparse')), no_logits=(mode == 'nologits'))
     if len(set(ws)) >= 2:
         mon.mark_nontrivial()
     if case['cls'] == 'page_ocr':
         return check_page_ocr(case, lines, mon, ctx)
     with contextlib.redirect_stdout(io.StringIO()):
-        tr, lg, co = eng.process_lines(list(lines), **kw)
+        try:
+            tr, lg, co = eng.process_lines(list(lines), **kw)
+        except Exception as e:
+            mon.violation('recognition-returns-a-result-for-every-line', {'exception': repr(e)[:300], 'widths': ws, 'batch_size': bs, 'mode': mode})
+            return
     mon.count('lists')
     if not (len(tr) == len(lg) == len(co) == k):
         mon.violation('one-result-per-input-position', {'n_lines': k, 'n_results': [len(tr), len(lg), len(co)]})
@@ -144,13 +148,22 @@ def check(case, mon, ctx):
             if lg[i] is not None or co[i] is not None:
                 mon.violation('no-logits-mode', dict(wit, logits=type(lg[i]).__name__, coords=co[i]))
             continue
-        Lg = lg[i].toarray() if mode == 'sparse' else np.asarray(lg[i])
-        if mode == 'tight':
+        Lg = lg[i].toarray() if mode in ('sparse', 'tight_sparse') else np.asarray(lg[i])
+        if Lg.ndim != 2 or Lg.shape[1] != len(eng.characters):
+            mon.violation('logits-are-the-lines-own', dict(wit, note='logit matrix does not have one column per symbol', shape=list(Lg.shape), symbols=len(eng.characters)))
+            continue
+        if mode in ('tight', 'tight_sparse'):
             mon.count('tight_compared')
             if co[i] != [None, None]:
                 mon.violation('frame-window', dict(wit, coords=co[i], note='tight crop must report an unknown window'))
-            if not maybe_trunc and (Lg.shape != ref[a:b].shape or np.abs(Lg - ref[a:b]).max(initial=0) > 1e-4):
-                mon.violation('logits-are-the-lines-own', dict(wit, shape=Lg.shape, expected_shape=ref[a:b].shape))
+            rr = ref[a:b]
+            if mode == 'tight_sparse' and Lg.shape == rr.shape:
+                pp_ = np.exp(rr.astype(np.float64) - np.logaddexp.reduce(rr.astype(np.float64), axis=1)[:, None]) if rr.size else rr
+                ok_ = (np.abs(Lg[pp_ > 1.2e-4] - rr[pp_ > 1.2e-4]).max(initial=0) <= 1e-4 and not np.any(Lg[pp_ < 0.8e-4] != 0)) if rr.size else True
+            else:
+                ok_ = Lg.shape == rr.shape and np.abs(Lg - rr).max(initial=0) <= 1e-4
+            if not maybe_trunc and not ok_:
+                mon.violation('logits-are-the-lines-own', dict(wit, shape=Lg.shape, expected_shape=rr.shape))
             continue
         mon.count('window_checked')
         if list(co[i]) != [a, b] and not (maybe_trunc and co[i][0] == a):
@@ -182,9 +195,9 @@ def check(case, mon, ctx):
             for pos, j in enumerate(perm):
                 same = tr2[pos] == tr[j] and co2[pos] == co[j]
                 if same and mode != 'nologits':
-                    A = lg[j].toarray() if mode == 'sparse' else np.asarray(lg[j])
-                    B = lg2[pos].toarray() if mode == 'sparse' else np.asarray(lg2[pos])
-                    a, b = (0, min(A.shape[0], B.shape[0])) if mode == 'tight' else (co[j][0], min(co[j][1], A.shape[0], B.shape[0]))
+                    A = lg[j].toarray() if mode in ('sparse', 'tight_sparse') else np.asarray(lg[j])
+                    B = lg2[pos].toarray() if mode in ('sparse', 'tight_sparse') else np.asarray(lg2[pos])
+                    a, b = (0, min(A.shape[0], B.shape[0])) if mode in ('tight', 'tight_sparse') else (co[j][0], min(co[j][1], A.shape[0], B.shape[0]))
                     same = A.shape[1] == B.shape[1] and (np.abs(A[a:b] - B[a:b]).max(initial=0) <= 1e-4)
                 if not same:
                     mon.violation('independent-of-list-order', {'image': j, 'position_in_permuted_list': pos, 'width': ws[j], 'batch_size': bs, 'mode': mode,
